@@ -41,10 +41,10 @@ Definition uint_quo (a b : Z) : option Z := if b =? 0 then None else uint_chk (Z
 Definition is_uint64 (z : Z) : bool := (0 <=? z) && (z <? 2^64).
 Definition uint_uint64 (a : Z) : option Z := if is_uint64 a then Some a else None.
 
-(* text decoders (types/int.go unmarshalText): the SAME 255-bit check is used for Int and,
-   through uint.go, for Uint -- and no sign check (finding F10). [z] is the parsed number. *)
+(* text decoders: Int uses the 255-bit check (types/int.go unmarshalText), Uint its own range
+   (types/uint.go unmarshalUintText, after the repair of F10). [z] is the parsed number. *)
 Definition int_unmarshal (z : Z) : option Z := int_chk z.
-Definition uint_unmarshal (z : Z) : option Z := int_chk z.
+Definition uint_unmarshal (z : Z) : option Z := uint_chk z.
 
 (* types/staking.go *)
 Definition power_reduction : Z := 10^6.
